@@ -6,6 +6,7 @@ package main
 // verdict with.
 
 import (
+	"math"
 	"regexp"
 	"unicode/utf8"
 
@@ -27,6 +28,8 @@ func isZero(v Value) bool {
 		return !v.B
 	case "enum":
 		return v.I == 0
+	case "float":
+		return math.Float64bits(v.F) == 0 // +0; -0 is a set value (protobuf)
 	}
 	return false
 }
@@ -53,6 +56,10 @@ func valueEq(a, b Value) bool {
 	case "bool":
 		return a.B == b.B
 	case "enum":
+		return a.I == b.I
+	case "float":
+		return a.F == b.F // as numbers: +0 = -0, NaN equals nothing
+	case "msg":
 		return a.I == b.I
 	}
 	return false
@@ -180,20 +187,49 @@ func isPrimary(p Prop) bool {
 	return p.T.Kind == TKey && p.T.Entity != nil && p.T.Entity.Primary != nil && *p.T.Entity.Primary
 }
 
-// ruleSem: does the value of the compiled field satisfy what the property declares?
+func isMsgKind(k TyKind) bool { return k >= TDate }
+
+// keyPlacementOK: entity.primaryKey has a declared meaning only on a singular key
+// property (schema.proto: "only valid in the keys object of an entity"); inside
+// an array or a map the oracle does not judge the declaration.
+func keyPlacementOK(p Prop) bool { return p.PK == PSingle || !isPrimary(p) }
+
+func patternCompiles(pat string) bool {
+	_, err := regexp.Compile(pat)
+	return err == nil
+}
+
+// patternsOK: every pattern the declaration carries is a valid RE2 expression
+func patternsOK(p Prop) bool {
+	switch p.T.Kind {
+	case TStr:
+		return p.T.Str == nil || p.T.Str.Pat == nil || patternCompiles(*p.T.Str.Pat)
+	case TKey:
+		return p.T.KF != KCustom || patternCompiles(p.T.KPat)
+	}
+	return true
+}
+
+// uniqueOnMessages: uniqueItems = true on an array whose items are messages
+func uniqueOnMessages(p Prop) bool {
+	return p.PK == PArray && p.Arr != nil && isTrue(p.Arr.Uniq) && isMsgKind(p.T.Kind)
+}
+
+// ruleSem: does the value of the compiled field satisfy what the property
+// declares? (patterns must compile: patternsOK)
 func ruleSem(env EnumEnv, p Prop, fv FValue) bool {
-	req := p.Req || isPrimary(p)
+	must := p.Req || (p.PK == PSingle && isPrimary(p))
 	switch p.PK {
 	case PSingle:
 		if fv.Absent {
-			return !req
+			return !must
 		}
-		if req && !p.Opt && p.T.Kind < TDate && isZero(fv.One) {
-			return false // an implicit-presence scalar at its zero value is not populated
+		if must && !p.Opt && !isMsgKind(p.T.Kind) && isZero(fv.One) {
+			return false // an implicit-presence scalar at its default value is not populated
 		}
 		return tyOK(env, p.T, fv.One)
 	case PMap:
-		if p.Req && len(fv.List) == 0 {
+		if must && len(fv.List) == 0 {
 			return false
 		}
 		if m := p.MapR; m != nil {
@@ -212,7 +248,7 @@ func ruleSem(env EnumEnv, p Prop, fv FValue) bool {
 		}
 		return true
 	case PArray:
-		if req && len(fv.List) == 0 {
+		if must && len(fv.List) == 0 {
 			return false
 		}
 		if a := p.Arr; a != nil {
